@@ -23,7 +23,7 @@ var interesting = []string{
 	"errorCollector.Add", "errorCollector.Combined", "workerWG.Add", "workerWG.Done", "workerWG.Wait", "close",
 	"s.db.ReadTransaction", "errors.Is", "tx.GraphQueryMemoryLimit", "pathTree.SizeOf", "buffer.PushBack",
 	"buffer.PopFront", "buffer.Front", "buffer.Len", "context.WithCancel", "channels.BufferedPipe", "getNext",
-	"getReaderC", "ctx.Done", "make",
+	"getReaderC", "ctx.Done", "make", "traversalCtx.Err",
 }
 
 type walker struct{ out []string }
@@ -161,12 +161,20 @@ func (w *walker) stmt(s ast.Stmt) {
 	case *ast.ExprStmt:
 		w.expr(x.X)
 	case *ast.AssignStmt:
+		before := len(w.out)
 		for _, r := range x.Rhs {
 			w.expr(r)
 		}
 		for i, l := range x.Lhs {
 			if id, ok := l.(*ast.Ident); ok && id.Name == "doneReading" && i < len(x.Rhs) {
 				w.emit("set(doneReading=" + short(x.Rhs[i]) + ")")
+			}
+		}
+		// a boolean decision computed from calls we track (e.g. `fatal := traversalCtx.Err() == nil || …`):
+		// keep its exact text, the order facts depend on it
+		if len(x.Lhs) == 1 && len(x.Rhs) == 1 {
+			if _, isBin := x.Rhs[0].(*ast.BinaryExpr); isBin && len(w.out) > before {
+				w.emit("assign(" + short(x.Lhs[0]) + "=" + text(x.Rhs[0]) + ")")
 			}
 		}
 	case *ast.DeclStmt:
